@@ -930,7 +930,34 @@ class MiniEval:
             return None
         if isinstance(st, ast.AugAssign):
             cur = self.expr(_load(st.target), env)
-            self.store(st.target, self._binop(st.op, cur, self.expr(st.value, env)), env)
+            val = self.expr(st.value, env)
+            # in-place operators of the mutable builtins: the object is updated (aliases see it) and any iterable / set / mapping is accepted
+            if isinstance(cur, (list, bytearray)) and isinstance(st.op, ast.Add):
+                try:
+                    cur += list(_iterable(_plain(val), "+=")) if isinstance(cur, list) else val
+                except _PY_ERRORS as e:
+                    raise Raised(_err_name(e))
+                self.store(st.target, cur, env)
+                return None
+            if isinstance(cur, list) and isinstance(st.op, ast.Mult) and isinstance(val, int):
+                cur *= val
+                self.store(st.target, cur, env)
+                return None
+            if isinstance(cur, (set, dict)) and isinstance(st.op, (ast.BitOr, ast.BitAnd, ast.Sub, ast.BitXor)) and isinstance(_plain(val), (set, frozenset, dict)):
+                try:
+                    if isinstance(st.op, ast.BitOr):
+                        cur |= _plain(val)
+                    elif isinstance(st.op, ast.BitAnd):
+                        cur &= _plain(val)
+                    elif isinstance(st.op, ast.Sub):
+                        cur -= _plain(val)
+                    else:
+                        cur ^= _plain(val)
+                except _PY_ERRORS as e:
+                    raise Raised(_err_name(e))
+                self.store(st.target, cur, env)
+                return None
+            self.store(st.target, self._binop(st.op, cur, val), env)
             return None
         if isinstance(st, ast.Return):
             return ("return", None if st.value is None else self.expr(st.value, env))
